@@ -181,13 +181,27 @@ def body(chk, db, cfgname):
     site = MC + "::operator():fallback"
     want = ("mcall", None, SRC, n1, n2, n3)
     good = bool(fallbacks)
+    undecided_fb = None
+    from pv.paths import return_cases as _rc
     for j, k in fallbacks:
+        if k[0] == "mcall" and k[2] == THIS and not k[1].endswith("::value"):
+            # the miss path is a private helper of the container (fetchFromSource(n1,n2,n3)): follow it one level
+            cands = [x for x in db.fns.values() if strip_targs(x.name) == strip_targs(k[1]) and len(x.params) == len(k) - 3 and x.body is not None and x.body >= 0]
+            rc_ = _rc(cands[0], Ctx(cands[0], db)) if len({x.hash if hasattr(x, "hash") else x.mangled for x in cands}) >= 1 and cands else None
+            if rc_ and len(rc_) == 1:
+                sub_ = {("param", p_["d"]): a_ for p_, a_ in zip(cands[0].params, k[3:])}
+                k = key_subst(rc_[0]["key"], lambda y: sub_.get(y[:2]) if y[0] == "param" else None)
+            else:
+                undecided_fb = "the miss path calls %s, whose returned value could not be read" % k[1]
+                continue
         if not (k[0] == "mcall" and k[1].endswith("::value") and k[2] == SRC and tuple(k[3:]) == (n1, n2, n3)):
             good = False
-    if good:
-        r3.ok(site, op.loc(fallbacks[0][0]), "every non-table return is pSource->value(n1,n2,n3)", cfgname)
-    else:
+    if not good:
         r3.bad(site, op.loc(), "on a miss the value is not fetched as pSource->value(n1, n2, n3)", cfgname)
+    elif undecided_fb:
+        r3.unknown(site, op.loc(), undecided_fb, cfgname)
+    else:
+        r3.ok(site, op.loc(fallbacks[0][0]), "every non-table return is pSource->value(n1,n2,n3)", cfgname)
 
     # ---- the fallback dereferences pSource: it must be bound whenever the vertex can be read
     r5 = chk.rule("C15-R5", "the source pointer the fallback dereferences is bound for every window size: fill() stores it on every path, and compute() reaches fill() on every path to Status = Computed", "F1 must-pass-through", 2)
